@@ -10,9 +10,11 @@ func init() {
 		MinEvals: 20000,
 		Rule: "stream seq: C08 operation sequence (10-160 ops, names over bytes 0x01-0xff without '/') x Keep write fault pattern (none | k-th PutB | random rate | background writes only | writes during a save only), " +
 			"MarshalManifest / Sync / Flush+MarshalManifest in between and a final save after faults stop; stream kth: one sequence re-executed with the k-th PutB failing for every k up to the fault-free count (fault enumeration); " +
+			"stream conc: 2-6 files with open handles (tree optionally loaded from a generated manifest, 0-2 new directories), 1-3 writer goroutines (each file owned by one writer: append / overwrite / truncate, sizes around the block size 1-16) x 1-3 MarshalManifest/Sync calls issued while the writers run, " +
+			"Keep stub parks the background writes of pruneMemSegments (at most concurrentWriters-1, released on overflow or by a releaser when nothing moves), block writes fail by origin (background 0/30/60/100 %, the save's own 0/10/30 %); M4 per save from its own commitBlock writes, M1, M3, and M2 as: tree exactly the static tree and every file's content per manifest (interpreter and real loader) is one of the states the file had between the call and the return of the save; then whole live tree = final states and a fault-free final save with M1-M3 exactly; the case input is persisted so that a process-fatal panic on a filesystem goroutine is attributed; " +
 			"stream m5: generated valid non-normalized manifest loaded and saved unchanged. Oracles M1 (validator written from the published grammar), M2 (independent interpreter over acknowledged blocks + reload through the real loader = model tree incl. empty directories), " +
 			"M3 (every locator from the original manifest or returned by a successful PutB, string identity), M4 (failed PutB during save => error, data intact, fault-free save succeeds), M5 (content and total size preserved). " +
-			"non-trivial = at least one save executed (seq), at least one PutB (kth), non-empty manifest (m5); distinct = distinct (block size, init, fault mode, background/save fault fired, save failed/succeeded, empty dir present, special name byte classes) tuples",
+			"non-trivial = at least one save executed (seq, conc), at least one PutB (kth), non-empty manifest (m5); distinct = distinct (block size, init, fault mode, background/save fault fired, save failed/succeeded, empty dir present, special name byte classes) tuples",
 		Assume: []string{
 			"a failing PutB returns a well-formed locator together with the error (as keepclient.PutHR does) and stores nothing",
 			"bytes >= 0x80 in names are accepted as text by the validator (DESIGN M1); path components are judged in their escaped spelling",
